@@ -36,3 +36,14 @@ func Keys[V any](m map[string]V) []string {
 	}
 	return out
 }
+
+// Sorted returns the keys in ascending order: a seam for loops whose order is irrelevant to the code's meaning
+// (e.g. spawning one goroutine per entry) but would otherwise decide which not-yet-named goroutine is which.
+func Sorted[V any](m map[string]V) []string {
+	keys := make([]string, 0, len(m))
+	for k := range m {
+		keys = append(keys, k)
+	}
+	sort.Strings(keys)
+	return keys
+}
